@@ -82,9 +82,9 @@ fn triple_case<P: G>(cfg: Cfg, seeded: bool, tier: Tier) -> Box<dyn Case> {
         fg::clear_intern();
         let mut res = CaseResult::new("explored");
         let wit = base_witness(&cfg, seeded);
-        let built = build_cached::<P>(&cfg, &wit).expect("valid");
+        let built = build_cached::<P>(&cfg, &wit).honest();
         let ctx = CTX_A;
-        let proof = lib_prove(&built, &ctx, &mut HRng::chacha(21)).expect("honest");
+        let proof = lib_prove(&built, &ctx, &mut HRng::chacha(21)).honest();
         // the base triple is accepted
         for mode in VMODES {
             let obs = verify_observed_one(&built.statement, &proof, &ctx, mode);
@@ -116,8 +116,8 @@ fn triple_case<P: G>(cfg: Cfg, seeded: bool, tier: Tier) -> Box<dyn Case> {
         // a companion triple (aggregation 1, same bit length and degree) to place the altered triple inside a batch
         let comp_cfg = Cfg::new(cfg.n, 1, 1, cfg.d);
         let comp_wit = Wit::default_for(&comp_cfg);
-        let comp = build_cached::<P>(&comp_cfg, &comp_wit).expect("valid");
-        let comp_proof = lib_prove(&comp, &CTX_A, &mut HRng::chacha(23)).expect("honest");
+        let comp = build_cached::<P>(&comp_cfg, &comp_wit).honest();
+        let comp_proof = lib_prove(&comp, &CTX_A, &mut HRng::chacha(23)).honest();
         // in-batch contexts presuppose that the two unaltered triples verify together in either order (C03's business)
         let batch_baseline_ok = [true, false].iter().all(|first| {
             let (sts, proofs) = if *first {
@@ -310,8 +310,8 @@ fn pair_case<P: G>(cfg: Cfg) -> Box<dyn Case> {
         fg::clear_intern();
         let mut res = CaseResult::new("explored");
         let wit = base_witness(&cfg, false);
-        let built = build_cached::<P>(&cfg, &wit).expect("valid");
-        let proof = lib_prove(&built, &CTX_A, &mut HRng::chacha(22)).expect("honest");
+        let built = build_cached::<P>(&cfg, &wit).honest();
+        let proof = lib_prove(&built, &CTX_A, &mut HRng::chacha(22)).honest();
         let bytes = P::to_bytes(&proof);
         let h = built.params.h_base().clone();
         let rp = match refbp::ref_decode(&bytes) {
@@ -356,9 +356,9 @@ fn long_batch_case<P: G>() -> Box<dyn Case> {
             let mut wit = Wit::default_for(&cfg);
             wit.values[0] = (pos % 4) as u64;
             wit.blindings[0][0] = blinding(4000 + pos, 0);
-            let built = build_cached::<P>(&cfg, &wit).unwrap();
+            let built = build_cached::<P>(&cfg, &wit).honest();
             let ctx = contexts()[pos % 6];
-            proofs.push(lib_prove(&built, &ctx, &mut HRng::chacha(pos as u64)).unwrap());
+            proofs.push(lib_prove(&built, &ctx, &mut HRng::chacha(pos as u64)).honest());
             sts.push(built.statement.clone());
             ctxs.push(ctx);
             builts.push(built);
